@@ -1,5 +1,5 @@
 (* Model/ErrorsLoopLib.v — property C13: the vocabulary of the extractor "looperrs"
-   (tools/go2v/c13_loop.go -> Gen/LoopErrors.v).  The head of the main loop of runner.run
+   (tools/go2v/c13_loop.go -> Gen/C13LoopErrors.v).  The head of the main loop of runner.run
    (compose/graph_run.go), before the tasks of the step are submitted, is a sequence of guards that end
    the run with an error:
 
